@@ -33,6 +33,7 @@ def convOf : String → Option (Nat → Option Nat)
   | "m3" => some fun m => if m % 3 == 0 then some (m + 1000) else none
   | "echo" => some some
   | "dropper" => some some
+  | "suicide" => some some
   | "from" => some some     -- `OutputPortSubscriberTrait::subscribe_to_port`: `|m| Some(O::from(m))`
   | _ => none
 
@@ -58,6 +59,9 @@ structure SubInfo where
   echo : Bool := false
   /-- the converter drops the port from inside a call (kind `dropper`) -/
   dropper : Bool := false
+  /-- the converter makes its OWN subscriber refuse messages (`drain()`) from inside the call, before
+  returning `Some` (kind `suicide`): the subscriber dies in the middle of a batch -/
+  suicide : Bool := false
   /-- v1: at some grant the task was more than the ring capacity behind -/
   lagged : Bool := false
 
@@ -97,6 +101,21 @@ def St.dropsAt (st : St) (opk m : Nat) : Bool :=
   match st.subs.find? (·.key == opk) with
   | some i => i.dropper && m < echoBase && m % 8 == 4
   | none => false
+
+/-- converter call `(op key, msg)` drains its own subscriber actor before it returns: that actor -/
+def St.suicideAt (st : St) (opk m : Nat) : Option Nat :=
+  match st.subs.find? (·.key == opk) with
+  | some i => if i.suicide && m < echoBase && m % 8 == 6 then some i.actor else none
+  | none => none
+
+def St.pre2 (st : St) (km : Nat × Nat) : List (Op2c Nat Nat) :=
+  ((st.suicideAt (st.toOp km.1) km.2).map fun a => Op2c.op (.exit a)).toList
+def St.pre1 (st : St) (km : Nat × Nat) : List (Op1c Nat Nat) :=
+  ((st.suicideAt (st.toOp km.1) km.2).map fun a => Op1c.op (.exit a)).toList
+
+/-- the subscriber actors that drained themselves during the converter calls of a grant -/
+def St.suicides (st : St) (cs : List (Nat × Nat)) : List Nat :=
+  cs.filterMap fun km => st.suicideAt km.1 km.2
 
 /-- the port operations a model call performs re-entrantly (model ordinal → op key) -/
 def St.re2 (st : St) (c : Call Nat) : List (Op2c Nat Nat) :=
@@ -236,16 +255,16 @@ def step (st : St) (op impl : String) : St × StepOut :=
     match key.toNat?, actor.toNat?, convOf kind with
     | some key, some actor, some c =>
       let info : SubInfo := { key := key, actor := actor, conv := c, pstart := st.pubs.length,
-                              grantedAt := st.pubs.length, echo := kind == "echo", dropper := kind == "dropper" }
+                              grantedAt := st.pubs.length, echo := kind == "echo", dropper := kind == "dropper", suicide := kind == "suicide" }
       let ord := if st.isV2 then st.s2.base.nsub else st.s1.base.fwds.length
       let st' := { st with subs := st.subs ++ [info], dirty := true, keyMap := st.keyMap ++ [(key, ord)] }
       if st.dropped then (st, { model := "closed" })
       else if (st.toModel key).isSome then (st, { model := "duplicate-key" })
       else if st.isV2 then
-        ({ st' with s2 := st.s2.step (.op (.subscribe actor c)) }, { model := "ok", nontrivial := kind == "echo" || kind == "dropper" })
+        ({ st' with s2 := st.s2.step (.op (.subscribe actor c)) }, { model := "ok", nontrivial := kind == "echo" || kind == "dropper" || kind == "suicide" })
       else
         let s1 := st.s1.step (.op (.subscribe actor c))
-        ({ st' with s1 := s1 }, { model := v1Counts s1.base, nontrivial := kind == "echo" || kind == "dropper" })
+        ({ st' with s1 := s1 }, { model := v1Counts s1.base, nontrivial := kind == "echo" || kind == "dropper" || kind == "suicide" })
     | _, _, _ => (st, { model := "bad-op" })
   | ["stop", actor] =>
     match actor.toNat? with
@@ -292,7 +311,7 @@ def step (st : St) (op impl : String) : St × StepOut :=
     ({ st with s2 := st.s2.step .drop, s1 := st.s1.step .drop, dropped := true },
      { model := "ok", nontrivial := !st.dropped && (st.dirty || !st.subs.isEmpty) })
   | ["grant", "port"] =>
-    let (s2, calls) := V2c.runTask st.re2 (fuelOf st) st.s2 []
+    let (s2, calls) := V2c.runTask st.re2 st.pre2 (fuelOf st) st.s2 []
     let obs := s!"calls={showCalls st calls} done={s2.finished}"
     let (subs, bad) := oracleCalls st impl
     -- the publications made from inside converter calls (and a drop from inside one), as the
@@ -300,14 +319,16 @@ def step (st : St) (op impl : String) : St × StepOut :=
     let (echoes, gone) := st.scanCalls ((parseCalls? impl).getD (calls.map fun c => (st.toOp c.key, c.msg)))
     -- after the drop nothing can park the port task: it must run to its end
     let bad := if gone && !(words impl).contains "done=true" then bad ++ ["not-terminated-after-drop"] else bad
-    ({ st with s2 := s2, dirty := false, subs := subs, pubs := st.pubs ++ echoes, dropped := gone },
+    let died := st.suicides ((parseCalls? impl).getD (calls.map fun c => (st.toOp c.key, c.msg)))
+    ({ st with s2 := s2, dirty := false, subs := subs, pubs := st.pubs ++ echoes, dropped := gone,
+               stopped := st.stopped ++ died },
      { model := obs, key := some s!"v2 {st.subs.length} {st.dropped} {gone} {echoes.length} {obs}", oracle := bad.eraseDups,
        nontrivial := (decide (calls.length > 1) && s2.base.live.length + s2.base.gone.length > 1)
          || !echoes.isEmpty || (gone && !st.s2.finished) })
   | ["grant", key] =>
     match key.toNat?.bind st.toModel with
     | some k =>
-      let (s1, calls) := V1c.runTask st.re1 (fuelOf st) st.s1 k []
+      let (s1, calls) := V1c.runTask st.re1 st.pre1 (fuelOf st) st.s1 k []
       match s1.base.fwds[k]? with
       | none => (st, { model := "no-such-task" })
       | some f =>
@@ -318,9 +339,10 @@ def step (st : St) (op impl : String) : St × StepOut :=
         let pubs := st.pubs ++ echoes
         let wasDone := st.s1.taskDone k
         let bad := if gone && !(words impl).contains "done=true" then bad ++ ["not-terminated-after-drop"] else bad
+        let died := st.suicides ((parseCalls? impl).getD (calls.map fun c => (st.toOp c.key, c.msg)))
         let endedAlive := !gone && (words impl).contains "done=true" &&
           (match st.subs.find? (fun i => st.toModel i.key == some k) with
-           | some i => !st.stopped.contains i.actor
+           | some i => !(st.stopped ++ died).contains i.actor
            | none => false)
         let bad := if endedAlive then bad ++ ["subscription-ended-alive"] else bad
         let subs := subs.map fun i =>
@@ -330,7 +352,7 @@ def step (st : St) (op impl : String) : St × StepOut :=
           else i
         let obs := s!"calls={showCalls st calls} done={s1.taskDone k}" ++
           (if s1.closed then "" else s!" {v1Counts s1.base}")
-        ({ st with s1 := s1, subs := subs, pubs := pubs, dropped := gone },
+        ({ st with s1 := s1, subs := subs, pubs := pubs, dropped := gone, stopped := st.stopped ++ died },
          { model := obs, key := some s!"v1 {k} {st.dropped} {gone} {echoes.length} {obs}", oracle := bad.eraseDups,
            nontrivial := (!calls.isEmpty && (lagged || f.ended || st.s1.base.fwds.length > 1))
              || !echoes.isEmpty || (gone && !wasDone) })
